@@ -84,20 +84,21 @@ type c20Params struct {
 }
 
 type c20Sub struct {
-	r        *c20Run
-	i        int
-	p        c20SubParams
-	ns       libshare.Namespace
-	key      string
-	ctx      context.Context
-	cancel   context.CancelFunc
-	feed     chan *header.ExtendedHeader
-	closeReq chan struct{}
-	closeOne sync.Once
-	closedCh chan struct{} // closed when the consumer observed the end of the stream
-	drainCh  chan struct{}
-	drainOne sync.Once
-	permit   chan struct{}
+	subscribedTimes int
+	r               *c20Run
+	i               int
+	p               c20SubParams
+	ns              libshare.Namespace
+	key             string
+	ctx             context.Context
+	cancel          context.CancelFunc
+	feed            chan *header.ExtendedHeader
+	closeReq        chan struct{}
+	closeOne        sync.Once
+	closedCh        chan struct{} // closed when the consumer observed the end of the stream
+	drainCh         chan struct{}
+	drainOne        sync.Once
+	permit          chan struct{}
 
 	// below: guarded by r.mu
 	out          <-chan *blob.SubscriptionResponse
@@ -319,6 +320,17 @@ func (r *c20Run) headerSub(ctx context.Context) (<-chan *header.ExtendedHeader, 
 	s, _ := ctx.Value(c20CtxKey{}).(*c20Sub)
 	if s == nil {
 		return nil, errors.New("c20: subscription context without identity")
+	}
+	r.mu.Lock()
+	s.subscribedTimes++
+	again := s.subscribedTimes > 1
+	r.mu.Unlock()
+	if again {
+		// the service asked for a second header subscription for the same blob subscription (e.g. after
+		// the first feed closed): it gets a feed that never delivers; whether the stream ends is judged
+		// by the close-cause oracle as usual
+		r.c.run.Count("header_subscription_requested_again", 1)
+		return make(chan *header.ExtendedHeader), nil
 	}
 	r.wg.Add(1)
 	go s.feedLoop()
